@@ -135,6 +135,12 @@ Proof.
   destruct (filter (under p) (map ie_path (st_index s))) as [|v0 vr] eqn:Ev.
   { exfalso. now apply (filter_under_nonempty p (st_index s)). }
   rewrite <- Ev. clear Ev v0 vr.
+  assert (Hd : existsb (fun v => is_dir_wt s v && negb (has_file s v)) (filter (under p) (map ie_path (st_index s))) = false).
+  { apply not_true_is_false. intros C. apply existsb_exists in C as [v [Hv Hc]].
+    apply filter_In in Hv as [Hv Hu]. apply in_map_iff in Hv as [e [<- He]].
+    rewrite forallb_forall in G6. specialize (G6 e He). rewrite Hu in G6. cbn [negb orb] in G6.
+    rewrite G6 in Hc. now rewrite andb_false_r in Hc. }
+  rewrite Hd.
   rewrite !fold_idx_remove, !fold_wt_remove. f_equal. f_equal.
   - apply filter_ext_in. intros e He. f_equal.
     rewrite !mem_path_filter, mem_idx_paths, mem_wt_paths.
